@@ -600,3 +600,111 @@ def expand_search_idioms(tree: ast.Module) -> int:
         if isinstance(fn, (ast.FunctionDef, ast.AsyncFunctionDef)):
             total += _search_in_list(fn.body)
     return total
+
+
+# --------------------------------------------------------------------------
+# walrus hoisting and contextlib.suppress
+# --------------------------------------------------------------------------
+
+def _hoist_walrus_in_list(stmts: List[ast.stmt]) -> int:
+    n = 0
+    i = 0
+    while i < len(stmts):
+        s = stmts[i]
+        if isinstance(s, (ast.FunctionDef, ast.AsyncFunctionDef, ast.ClassDef)):
+            i += 1
+            continue
+        for fld in ("body", "orelse", "finalbody"):
+            sub = getattr(s, fld, None)
+            if isinstance(sub, list) and sub and isinstance(sub[0], ast.stmt):
+                n += _hoist_walrus_in_list(sub)
+        if isinstance(s, ast.Try):
+            for h in s.handlers:
+                n += _hoist_walrus_in_list(h.body)
+        # only where the walrus is evaluated unconditionally and first: the test itself, the left-most
+        # operand chain of the test (`(x := E) is None`, `not (x := E)`, first operand of and/or)
+        if isinstance(s, (ast.If, ast.Assign, ast.Return, ast.Expr)):
+            holder = "test" if isinstance(s, ast.If) else "value"
+            top = getattr(s, holder, None)
+
+            def first_walrus(e):
+                if isinstance(e, ast.NamedExpr) and isinstance(e.target, ast.Name):
+                    return e
+                if isinstance(e, ast.UnaryOp):
+                    return first_walrus(e.operand)
+                if isinstance(e, ast.BoolOp):
+                    return first_walrus(e.values[0])
+                if isinstance(e, ast.Compare):
+                    return first_walrus(e.left)
+                if isinstance(e, ast.Call) and isinstance(e.func, ast.Attribute):
+                    return first_walrus(e.func.value)
+                if isinstance(e, ast.Attribute):
+                    return first_walrus(e.value)
+                if isinstance(e, ast.Subscript):
+                    return first_walrus(e.value)
+                return None
+
+            w = first_walrus(top) if top is not None else None
+            if w is not None:
+                asg = ast.Assign(targets=[ast.Name(id=w.target.id, ctx=ast.Store())], value=w.value, type_comment=None)
+                ast.copy_location(asg, s)
+
+                class R(ast.NodeTransformer):
+                    def visit_NamedExpr(self, node):
+                        if node is w:
+                            return ast.copy_location(ast.Name(id=w.target.id, ctx=ast.Load()), node)
+                        return self.generic_visit(node)
+
+                    def generic_visit(self, node):
+                        for field, old in ast.iter_fields(node):
+                            if isinstance(old, list):
+                                if old and isinstance(old[0], ast.stmt):
+                                    continue
+                                old[:] = [self.visit(v) if isinstance(v, ast.AST) else v for v in old]
+                            elif isinstance(old, ast.AST):
+                                setattr(node, field, self.visit(old))
+                        return node
+
+                setattr(s, holder, R().visit(top))
+                ast.fix_missing_locations(asg)
+                stmts.insert(i, asg)
+                n += 1
+                continue  # re-examine the same statement (now at i+1 after insert) for further walruses
+        i += 1
+    return n
+
+
+def _suppress_to_try(stmts: List[ast.stmt]) -> int:
+    n = 0
+    for i, s in enumerate(list(stmts)):
+        if isinstance(s, (ast.FunctionDef, ast.AsyncFunctionDef, ast.ClassDef)):
+            continue
+        for fld in ("body", "orelse", "finalbody"):
+            sub = getattr(s, fld, None)
+            if isinstance(sub, list) and sub and isinstance(sub[0], ast.stmt):
+                n += _suppress_to_try(sub)
+        if isinstance(s, ast.Try):
+            for h in s.handlers:
+                n += _suppress_to_try(h.body)
+        if isinstance(s, ast.With) and len(s.items) == 1 and s.items[0].optional_vars is None:
+            c = s.items[0].context_expr
+            nm = c.func.id if isinstance(c, ast.Call) and isinstance(c.func, ast.Name) else (c.func.attr if isinstance(c, ast.Call) and isinstance(c.func, ast.Attribute) else None)
+            if nm == "suppress" and c.args and not c.keywords:
+                typ = c.args[0] if len(c.args) == 1 else ast.Tuple(elts=list(c.args), ctx=ast.Load())
+                h = ast.ExceptHandler(type=typ, name=None, body=[ast.Pass()])
+                t = ast.Try(body=s.body, handlers=[h], orelse=[], finalbody=[])
+                for x in (h, t):
+                    ast.copy_location(x, s)
+                ast.fix_missing_locations(t)
+                stmts[stmts.index(s)] = t
+                n += 1
+    return n
+
+
+def desugar(tree: ast.Module) -> int:
+    total = 0
+    for fn in ast.walk(tree):
+        if isinstance(fn, (ast.FunctionDef, ast.AsyncFunctionDef)):
+            total += _hoist_walrus_in_list(fn.body)
+            total += _suppress_to_try(fn.body)
+    return total
